@@ -1,11 +1,123 @@
-//! C15 — not built yet.
+//! C15 — determinism and independence of the API path: every front end, 8 threads, 3 processes.
 use crate::common::*;
+use crate::core::*;
+
 pub struct P;
-impl Prop for P {
-    fn generate(&self, _tier: Tier, _rng: &mut Rng, _stats: &mut Stats) -> Vec<String> {
-        vec![]
+
+fn all_paths_bytes(ty: u64, ops: &[Op]) -> Result<Vec<u8>, String> {
+    let mut reference: Option<(String, Option<Vec<u8>>)> = None;
+    for (sem, fe) in applicable_front_ends(ops, true, ty) {
+        let b = exec_build(sem, fe, ty, 10_000, 2, ops).bytes;
+        match &reference {
+            None => reference = Some((format!("{}/{}", sem, fe), b)),
+            Some((name, r)) => {
+                if *r != b {
+                    return Err(format!("{}/{} differs from {}", sem, fe, name));
+                }
+            }
+        }
     }
-    fn execute(&self, _case: &str) -> String {
-        String::new()
+    // sets: stream a union of two or three other sets into a SetBuilder
+    if ty == 0 && !ops.is_empty() && ops.iter().all(|o| matches!(o, Op::Add(..))) {
+        let ks: Vec<Vec<u8>> = ops.iter().map(|o| o.key().to_vec()).collect();
+        let mut parts: Vec<Vec<Vec<u8>>> = vec![vec![], vec![], vec![]];
+        for (i, k) in ks.iter().enumerate() {
+            parts[i % 3].push(k.clone());
+            if i % 5 == 0 {
+                parts[(i + 1) % 3].push(k.clone());
+            }
+        }
+        let sets: Vec<fst::Set<Vec<u8>>> = parts.iter().map(|p| fst::Set::from_iter(sort_dedup(p.clone())).unwrap()).collect();
+        let mut b = fst::SetBuilder::memory();
+        let mut opb = fst::set::OpBuilder::new();
+        for s in &sets {
+            opb = opb.add(s);
+        }
+        b.extend_stream(opb.union()).map_err(|e| format!("extend_stream(union): {}", e))?;
+        let bytes = b.into_inner().unwrap();
+        if Some(&bytes) != reference.as_ref().unwrap().1.as_ref() {
+            return Err("SetBuilder::extend_stream(union of sets) differs".into());
+        }
+    }
+    reference.unwrap().1.ok_or("no fst".to_string())
+}
+
+impl Prop for P {
+    fn generate(&self, tier: Tier, rng: &mut Rng, stats: &mut Stats) -> Vec<String> {
+        let mut cases = vec![];
+        let nrand = match tier { Tier::Quick => 200, Tier::Thorough => 3000, Tier::Wide => 800 };
+        let sets = crate::c02::standard_keysets(tier, rng, stats, nrand);
+        for ks in sets {
+            cases.push(build_case("extend", "all", 0, 10_000, 2, &set_ops(&ks)));
+            let p = 1 + rng.below(NPATTERNS as u64 - 1) as usize;
+            let vals = value_pattern(p, ks.len(), rng);
+            let ty = if rng.chance(1, 6) { rng.next() } else { 0 };
+            cases.push(build_case("extend", "all", ty, 10_000, 2, &map_ops(&with_values(&ks, &vals))));
+        }
+        cases
+    }
+    fn nontrivial(&self, case: &str) -> bool {
+        case.matches(',').count() >= 1
+    }
+    fn execute(&self, case: &str) -> String {
+        let p: Vec<&str> = case.split(' ').collect();
+        let ty: u64 = p[3].parse().unwrap();
+        let ops = parse_ops(p[6]);
+        let mut x = String::from("ok");
+        let bytes = match all_paths_bytes(ty, &ops) {
+            Ok(b) => b,
+            Err(e) => {
+                x = e;
+                exec_build("extend", "raw_loop", ty, 10_000, 2, &ops).bytes.unwrap()
+            }
+        };
+        // repeated builds in 8 parallel threads
+        let same = std::thread::scope(|s| {
+            let hs: Vec<_> = (0..8)
+                .map(|i| {
+                    let ops = &ops;
+                    s.spawn(move || {
+                        let fes = applicable_front_ends(ops, true, ty);
+                        let (sem, fe) = fes[i % fes.len()];
+                        exec_build(sem, fe, ty, 10_000, 2, ops).bytes
+                    })
+                })
+                .collect();
+            hs.into_iter().all(|h| h.join().unwrap().as_ref() == Some(&bytes))
+        });
+        if !same {
+            x = "bytes differ between threads".into();
+        }
+        let f = fst::raw::Fst::new(bytes.clone()).unwrap();
+        let kvs = f.stream().into_byte_vec();
+        format!("S:r=ok;c={};len={}\tM:bytes={};bw=na;st=na\tX:{}", fmt_kvs(&kvs), f.len(), hex(&bytes), x)
+    }
+    fn extras(&self, _tier: Tier, rng: &mut Rng, _stats: &mut Stats) -> Vec<(String, bool, String)> {
+        // separate processes: re-run a sample of cases in three child processes and compare the result lines
+        let exe = std::env::current_exe().unwrap();
+        let dir = exe.parent().unwrap().join("c15-proc");
+        let _ = std::fs::create_dir_all(&dir);
+        let mut cases = vec![];
+        for _ in 0..40 {
+            let ks = random_keyset(rng, 40, 6);
+            let vals = value_pattern(6, ks.len(), rng);
+            cases.push(build_case("extend", "all", 0, 10_000, 2, &map_ops(&with_values(&ks, &vals))));
+            cases.push(build_case("extend", "all", 0, 10_000, 2, &set_ops(&ks)));
+        }
+        let cf = dir.join("cases.txt");
+        std::fs::write(&cf, cases.join("\n") + "\n").unwrap();
+        let mut outs = vec![];
+        for i in 0..3 {
+            let of = dir.join(format!("out{}.txt", i));
+            let st = std::process::Command::new(&exe).args(["C15", "exec", cf.to_str().unwrap(), of.to_str().unwrap()]).status();
+            if st.map(|s| !s.success()).unwrap_or(true) {
+                return vec![("cross_process_determinism".into(), false, "child process failed".into())];
+            }
+            outs.push(std::fs::read_to_string(&of).unwrap_or_default());
+        }
+        let inproc: Vec<String> = cases.iter().map(|c| self.execute(c)).collect();
+        let ok = outs.iter().all(|o| o.lines().map(|l| l.to_string()).collect::<Vec<_>>() == inproc);
+        let _ = std::fs::remove_dir_all(&dir);
+        vec![("cross_process_determinism".into(), ok, format!("{} builds x 3 child processes compared with the in-process result", cases.len()))]
     }
 }
